@@ -23,6 +23,7 @@ import urllib.parse
 import common
 from common import coq_list, coq_z
 
+TAG = "C16_%d" % os.getpid()    # scratch-file prefix in coq/build, unique per process
 THEOREMS = ["C16_refines", "C16_no_lost_update", "C16_fresh_commit_visible", "C16_safe_delete",
             "C16_safe_delete_gone", "C16_lookup_live", "C16_lookup_missing", "C16_membership", "C16_len", "C16_fault_total",
             "C16_unquote_quote", "C16_quote_inj", "C16_unquote_transform", "C16_transform_inj",
@@ -529,7 +530,7 @@ def coq_case(case, trace):
 
 def model_trace(case):
     pool, ops = coq_parts(case)
-    return common.coq_eval("C16", PRELUDE, f"let pool := map (fun p => (fst p, n (snd p))) {pool} in "
+    return common.coq_eval(TAG, PRELUDE, f"let pool := map (fun p => (fst p, n (snd p))) {pool} in "
                                            f"trace (map fst pool) (init pool) {ops}")
 
 
@@ -586,7 +587,7 @@ def run(chk):
                 code = t[0][0]
                 chk.count("out=" + ({0: "None", 1: "object", 3: "bool", 4: "int", 5: "list"}.get(code) or
                                     "exc-" + {1: "KeyError", 2: "Connection", 3: "Response", 4: "Server", 5: "Conflict",
-                                              6: "Source"}.get(t[0][1] if len(t[0]) > 1 else -1, "other")))
+                                              6: "Source", 9: "(no such object: call not made)"}.get(t[0][1] if len(t[0]) > 1 else -1, "other")))
             if fail:
                 chk.count("oracle_failures")
                 sig0 = f"C16:{fail[1]}:{fail[2]}"
@@ -613,9 +614,9 @@ def run(chk):
             if err:
                 chk.fail("C16:add:reserved-id", f"an Identifiable whose id starts with an underscore cannot be stored: {err}",
                          {"id": ident, "how": "tools/c16.py probe_reserved()"})
-        bad, errs = common.run_mismatch_shards("C16", PRELUDE, terms, "check_case", shard=150)
+        bad, errs = common.run_mismatch_shards(TAG, PRELUDE, terms, "check_case", shard=150)
         n1 = common.run_mismatch_shards.evaluated
-        bad2, errs2 = common.run_mismatch_shards("C16q", PRELUDE, qterms, "check_quote", shard=4000)
+        bad2, errs2 = common.run_mismatch_shards(TAG + "q", PRELUDE, qterms, "check_quote", shard=4000)
         chk.traces = n1 + common.run_mismatch_shards.evaluated - len(bad) - len(bad2)
         for e in errs + errs2:
             chk.tie_broken("correspondence-run", e)
@@ -626,7 +627,7 @@ def run(chk):
                 cands = [c for c in cands if c["ops"] and valid(c)]
                 if not cands:
                     break
-                b, e = common.run_mismatch_shards("C16s", PRELUDE, [coq_case(c, run_sdk(c)[0]) for c in cands],
+                b, e = common.run_mismatch_shards(TAG + "s", PRELUDE, [coq_case(c, run_sdk(c)[0]) for c in cands],
                                                   "check_case", shard=400)
                 if e or not b:
                     break
